@@ -394,10 +394,8 @@ theorem genCellFaces_fields (r q : Raw) (h : genCellFaces r = .ok q) :
     q.fcElem = r.fcElem ∧ q.fcAdj = r.fcAdj ∧ q.ccElem = r.ccElem ∧ q.ccAdj = r.ccAdj ∧ q.prepared = r.prepared := by
   unfold genCellFaces at h
   split at h
-  · split at h
-    · injection h with h; subst h; simp
-    · cases h
   · injection h with h; subst h; simp
+  · cases h
 
 theorem prepare_ok (cfg : Cfg) (r p : Raw) (h0 : r.prepared = false) (h : prepare cfg r = .ok p) :
     ∃ q, genCellFaces (stages cfg r) = .ok q ∧ p = { q with prepared := true } := by
@@ -454,6 +452,23 @@ theorem gfc_regen (r : Raw) (h : r.fcElem = []) :
 theorem gcc_regen (r : Raw) (h1 : r.ccElem = []) :
     (genCellCorners r).ccElem = r.cells.flatten ∧ (genCellCorners r).ccAdj = owners r.cells := by
   unfold genCellCorners; simp [h1]
+
+/-- stale or missing corner records are rebuilt: whenever the number of face (cell) corner elements differs from the
+number of face (cell) vertices, e.g. after elements were appended to a built mesh -/
+theorem gfc_regen_stale (r : Raw) (h : r.fcElem.length ≠ (r.faces.map List.length).sum) :
+    (genFaceCorners r).fcElem = r.faces.flatten ∧ (genFaceCorners r).fcAdj = owners r.faces := by
+  unfold genFaceCorners; rw [if_pos (Or.inr h)]; exact ⟨rfl, rfl⟩
+
+theorem gcc_regen_stale (r : Raw) (h : r.ccElem.length ≠ (r.cells.map List.length).sum) (h2 : r.ccAdj.length ≠ 0) :
+    (genCellCorners r).ccElem = r.cells.flatten ∧ (genCellCorners r).ccAdj = owners r.cells := by
+  unfold genCellCorners
+  rw [if_pos (Or.inr (Or.inr (Or.inl h))), if_neg (fun hh => h2 hh.1)]
+  exact ⟨rfl, rfl⟩
+
+theorem flatten_length_sum (rows : List (List Nat)) : rows.flatten.length = (rows.map List.length).sum := by
+  induction rows with
+  | nil => rfl
+  | cons r rs ih => simp [ih]
 
 /-! ### cell-face records -/
 
@@ -570,10 +585,9 @@ theorem cellFaceIds_total (keys cells)
     obtain ⟨l, hl⟩ := ih (fun d hd => ha d (by simp [hd]))
     exact ⟨idsOf keys (cellFacesC c) :: l, by simp [cellFaceIds, cellFacesG_eq c (ha c (by simp)), hl]⟩
 
-theorem genCellFaces_regen (r q : Raw) (h : genCellFaces r = .ok q) (h0 : r.cfElem = []) :
+theorem genCellFaces_regen (r q : Raw) (h : genCellFaces r = .ok q) :
     ∃ idss, cellFaceIds (r.faces.map keyF) r.cells = .ok idss ∧ q.cfElem = idss.flatten ∧ q.cfAdj = owners idss := by
   unfold genCellFaces at h
-  simp only [h0, List.length_nil, or_true, if_true] at h
   split at h
   · rename_i idss hi
     injection h with h; subst h
